@@ -7,7 +7,7 @@
    compiled; `lp` is the `Loop(start_idx)` entry that get_current_loop() would find.
    The result is the chunk BEFORE Chunk::optimize (C09 relates the two).
    Executable definitions only. *)
-From TeraV Require Import Model.Value Model.Instr Model.VM Spec.Stmt Gen.Tables.
+From TeraV Require Import Model.Value Model.Instr Model.Slice Model.VM Spec.Stmt Gen.Tables.
 Local Open Scope nat_scope.
 
 (* parser.rs 323-330: loop.<field> inside a for is rewritten to a reserved variable name *)
@@ -36,6 +36,27 @@ Definition compile_kws (ce : nat -> expr -> list instr) : nat -> list (str * exp
     | [] => []
     | (k, e) :: t => let c := LoadConst (VStr k false) :: ce (S base) e in c ++ go (base + length c) t
     end.
+
+(* the entries of an array literal (compile_expr 122-157): every entry's expression, in order *)
+Definition compile_items (ce : nat -> expr -> list instr) : nat -> list (bool * expr) -> list instr :=
+  fix go base l :=
+    match l with
+    | [] => []
+    | (_, e) :: t => let c := ce base e in c ++ go (base + length c) t
+    end.
+
+(* compile_map_entries 74-110: LoadConst key; value for a pair, the expression for a spread *)
+Definition compile_entries (ce : nat -> expr -> list instr)
+  : nat -> list (option value * expr) -> list instr :=
+  fix go base l :=
+    match l with
+    | [] => []
+    | (Some k, e) :: t => let c := LoadConst k :: ce (S base) e in c ++ go (base + length c) t
+    | (None, e) :: t => let c := ce base e in c ++ go (base + length c) t
+    end.
+
+Definition is_spread (e : option value * expr) : bool :=
+  match fst e with None => true | Some _ => false end.
 
 Fixpoint compile_expr (base : nat) (e : expr) {struct e} : list instr :=
   match e with
@@ -71,6 +92,28 @@ Fixpoint compile_expr (base : nat) (e : expr) {struct e} : list instr :=
       let b2 := b1 + length ca + 1 in
       let cb := compile_expr b2 b in
       cc ++ [PopJumpIfFalse b2] ++ ca ++ [Jump (b2 + length cb)] ++ cb
+  | EAttrOpt e1 a => compile_expr base e1 ++ [LoadAttrOpt a]          (* 175-184 *)
+  | ESub opt e1 i =>                                                  (* 185-194 *)
+      let c1 := compile_expr base e1 in
+      c1 ++ compile_expr (base + length c1) i ++ [if opt then BinarySubscriptOpt else BinarySubscript]
+  | ESlice opt e1 a b c =>             (* 195-221: absent start/end load none, an absent step loads 1 *)
+      let c1 := compile_expr base e1 in
+      let b1 := base + length c1 in
+      let ca := match a with Some x => compile_expr b1 x | None => [LoadConst VNone] end in
+      let b2 := b1 + length ca in
+      let cb := match b with Some x => compile_expr b2 x | None => [LoadConst VNone] end in
+      let b3 := b2 + length cb in
+      let cc := match c with Some x => compile_expr b3 x | None => [LoadConst (VInt I64 1)] end in
+      c1 ++ ca ++ cb ++ cc ++ [if opt then SliceOpt else Slice]
+  | ECall name kw =>                                                  (* 334-343 *)
+      compile_kws compile_expr base kw ++ [BuildMap (length kw); CallFunction name]
+  | EArr items =>                                                     (* 122-157 *)
+      compile_items compile_expr base items
+        ++ [if existsb fst items then BuildListWithSpreads (map fst items) else BuildList (length items)]
+  | EMap entries =>                                                   (* 118-121, 74-110 *)
+      compile_entries compile_expr base entries
+        ++ [if existsb is_spread entries then BuildMapWithSpreads (map is_spread entries)
+            else BuildMap (length entries)]
   end.
 
 Definition compile_kwargs (base : nat) (kw : list (str * expr)) : list instr :=
@@ -186,6 +229,24 @@ Definition binop_result (wd : world) (op : binop) (a b : value) : res value :=
 Definition neg_result (wd : world) (a : value) : res value :=
   match w_negate wd a with ROk b => ROk b | RErr _ => RErr ErrRender end.
 
+(* what BuildMap / BuildMapWithSpreads make of evaluated map-literal entries (source order) *)
+Definition entry_flat (e : option value * value) : list value :=
+  match e with (Some k, v) => [k; v] | (None, v) => [v] end.
+
+Definition build_map_result (wd : world) (es : list (option value * value)) : res value :=
+  let spread (e : option value * value) := match fst e with None => true | Some _ => false end in
+  if existsb spread es
+  then match build_map_spreads wd (rev (map spread es)) (rev (flat_map entry_flat es)) [] with
+       | ROk (m, _) => ROk (VMap m)
+       | RErr e => RErr e
+       end
+  else match build_map_pairs wd (flat_map entry_flat es) with
+       | ROk pairs => ROk (VMap (map_of_pairs wd pairs))
+       | RErr e => RErr e
+       end.
+
+Definition s_super : str := [115;117;112;101;114]%N.
+
 Definition builtins_of_world (wd : world) : builtins :=
   {| b_get_attr := w_get_attr wd;
      b_eq := w_eq wd;
@@ -194,7 +255,11 @@ Definition builtins_of_world (wd : world) : builtins :=
      b_format := w_format wd;
      b_escape := w_escape wd;
      b_binop := binop_result wd;
-     b_neg := neg_result wd |}.
+     b_neg := neg_result wd;
+     b_subscript := subscript wd;
+     b_slice := vm_slice;
+     b_function := fun name kws => w_function wd name (kw_map wd kws) no_scope;
+     b_build_map := build_map_result wd |}.
 
 (* ---------- what the parser guarantees about the trees it hands to the compiler ----------
    parser.rs 1585-1615: break/continue only inside a for body and not across a capture
@@ -215,6 +280,16 @@ Fixpoint wf_expr (lex : bool) (e : expr) {struct e} : bool :=
   | EAnd a b | EOr a b | EEq a b | EBin _ a b => wf_expr lex a && wf_expr lex b
   | EFilter e1 _ kw => wf_expr lex e1 && forallb (fun ke => wf_expr lex (snd ke)) kw
   | ETernary c a b => wf_expr lex c && wf_expr lex a && wf_expr lex b
+  | EAttrOpt e1 _ => wf_expr lex e1
+  | ESub _ a b => wf_expr lex a && wf_expr lex b
+  | ESlice _ e1 a b c =>
+      wf_expr lex e1 && match a with Some x => wf_expr lex x | None => true end
+      && match b with Some x => wf_expr lex x | None => true end
+      && match c with Some x => wf_expr lex x | None => true end
+  (* function calls, array and map literals are compiled (and covered by C07's
+     compile_always_checks, which does not look at wf_expr) but compile_correct (C03) is NOT
+     proved for them: excluded here *)
+  | ECall _ _ | EArr _ | EMap _ => false
   end.
 
 Definition wf_kws (lex : bool) (kw : list (str * expr)) : bool :=
@@ -239,3 +314,17 @@ Fixpoint wf_stmt (okn : str -> bool) (lex brk : bool) (s : stmt) {struct s} : bo
   end.
 
 Definition wf_body (okn : str -> bool) (body : list stmt) : bool := forallb (wf_stmt okn false false) body.
+
+(* the part of wf_stmt about the control structure alone -- where break / continue may stand
+   (parser.rs 1585-1615) -- with no condition on expressions, names or includes: what C07's
+   compile_always_checks needs *)
+Fixpoint brk_stmt (brk : bool) (s : stmt) {struct s} : bool :=
+  match s with
+  | SText _ | SInclude _ | SPrint _ | SAssign _ _ _ => true
+  | SIf _ body els => forallb (brk_stmt brk) body && forallb (brk_stmt brk) els
+  | SFor _ _ _ body els => forallb (brk_stmt true) body && forallb (brk_stmt brk) els
+  | SSetBlock _ _ body _ | SFilter _ _ body => forallb (brk_stmt false) body
+  | SBreak | SContinue => brk
+  end.
+
+Definition brk_body (body : list stmt) : bool := forallb (brk_stmt false) body.
